@@ -395,7 +395,7 @@ def r_mypy(ck: Checker) -> None:
 
     ti = build(ck.prg.src)
     runtime = {"union-attr", "attr-defined", "call-arg", "arg-type", "index", "operator", "name-defined", "call-overload", "misc", "return-value", "assignment", "var-annotated"}
-    hard = {"union-attr", "attr-defined", "call-arg", "index", "operator", "name-defined", "call-overload", "arg-type"}
+    hard = {"union-attr", "attr-defined", "call-arg", "index", "operator", "name-defined"}  # arg-type is suppressed by `# type: ignore` pragmas in the tree: comment-only edits must stay neutral
     errs = [e for e in ti.errors if e[2] in hard]
     ck.add("mypy: no error of a runtime-relevant code", not errs, "ngo:<all>", None, f"{len(ti.types)} expressions typed; runtime-relevant errors: {[(e[0], e[1], e[2]) for e in errs][:5]}",
            "e.g. union-attr = attribute access on a possibly-None result of an Optional-returning decider", rule="C03.MYPY")
